@@ -206,6 +206,7 @@ func keys(m map[string]M) []string {
 }
 
 var bodyFields = []string{"N", "S", "On", "L"}
+var formFields = []string{"A", "N", "L", "D"}
 
 func emit(r *core.Run, mode string, into any) error {
 	ls, err := obs.Emit(r, "ExchangeEmit", tlc.Cfg(`CONSTANT Mode = "`+mode+`"`, "INIT Init", "NEXT Next"), 10*time.Minute)
@@ -279,7 +280,10 @@ func Prepare(r *core.Run, extra, race bool) (*Prepared, error) {
 		B M `json:"b"`
 	}
 	var resps []M
-	for mode, into := range map[string]any{"rows": &rows, "vals": &vals, "bodies": &bodies, "resps": &resps} {
+	var forms []struct {
+		B M `json:"b"`
+	}
+	for mode, into := range map[string]any{"rows": &rows, "vals": &vals, "bodies": &bodies, "resps": &resps, "forms": &forms} {
 		if err := emit(r, mode, into); err != nil {
 			return nil, err
 		}
@@ -288,6 +292,7 @@ func Prepare(r *core.Run, extra, race bool) (*Prepared, error) {
 	r.Cov("values", len(vals))
 	r.Cov("bodies", len(bodies))
 	r.Cov("responses", len(resps))
+	r.Cov("form_bodies", len(forms))
 	r.SetExhaustive(true)
 
 	// ---- the document -----------------------------------------------------------------
@@ -333,10 +338,13 @@ func Prepare(r *core.Run, extra, race bool) (*Prepared, error) {
 		"201":     M{"description": "created"},
 		"4XX":     M{"description": "client error", "headers": M{"X-E": M{"schema": M{"type": "string"}}}, "content": jsonOf("E4")},
 		"default": M{"description": "error", "headers": M{"X-E": M{"schema": M{"type": "string"}}}, "content": jsonOf("ED")}}}}
+	formOf := func(ct string) M { return M{ct: M{"schema": M{"$ref": "#/components/schemas/Form"}}} }
+	paths["/form"] = M{"post": M{"operationId": "form", "requestBody": M{"required": true, "content": formOf("application/x-www-form-urlencoded")}, "responses": M{"200": M{"description": "ok"}}}}
+	paths["/multi"] = M{"post": M{"operationId": "multi", "requestBody": M{"required": true, "content": formOf("multipart/form-data")}, "responses": M{"200": M{"description": "ok"}}}}
+	octets := M{"application/octet-stream": M{"schema": M{"type": "string", "format": "binary"}}}
+	paths["/stream"] = M{"post": M{"operationId": "stream", "requestBody": M{"required": true, "content": octets}, "responses": M{"200": M{"description": "ok", "content": octets}}}}
 	if extra {
 		paths["/vbody"] = M{"post": M{"operationId": "vbody", "requestBody": M{"required": true, "content": jsonOf("VBody")}, "responses": M{"200": M{"description": "ok", "content": jsonOf("VBody")}}}}
-		bin := M{"application/octet-stream": M{"schema": M{"type": "string", "format": "binary"}}}
-		paths["/stream"] = M{"post": M{"operationId": "stream", "requestBody": M{"required": true, "content": bin}, "responses": M{"200": M{"description": "ok", "content": bin}}}}
 	}
 	msg := func() M {
 		return M{"type": "object", "required": []string{"msg"}, "properties": M{"msg": M{"type": "string"}}}
@@ -345,6 +353,8 @@ func Prepare(r *core.Run, extra, race bool) (*Prepared, error) {
 		"Body": M{"type": "object", "required": []string{"n"}, "properties": orderedProps{{"n", M{"type": "integer"}}, {"s", M{"type": "string", "default": "sd"}},
 			{"on", M{"type": "string", "nullable": true}}, {"l", M{"type": "array", "items": M{"type": "integer"}}}}},
 		"R200": msg(), "E4": msg(), "ED": msg(),
+		"Form": M{"type": "object", "required": []string{"a"}, "properties": orderedProps{{"a", M{"type": "string"}}, {"n", M{"type": "integer"}},
+			{"l", M{"type": "array", "items": M{"type": "string"}}}, {"d", M{"type": "string", "default": "fd"}}}},
 		"VBody": M{"type": "object", "required": []string{"p", "m"}, "properties": orderedProps{{"p", M{"type": "string", "pattern": "^[a-z]+$"}}, {"m", M{"type": "number", "multipleOf": 0.5}},
 			{"q", M{"type": "string", "pattern": "^(a|b)+c$", "maxLength": 40}},
 			// patterns the RE2 converter has to hand to the backtracking engine
@@ -414,6 +424,12 @@ func Prepare(r *core.Run, extra, race bool) (*Prepared, error) {
 		calls = append(calls, dcall{Method: "Body", HasReq: true, Req: toGo(b.B, bodyFields), Keys: [][]string{}})
 		metas = append(metas, meta{kind: "body", vary: -1, sent: b.B})
 	}
+	for _, method := range []string{"Form", "Multi"} {
+		for _, f := range forms {
+			calls = append(calls, dcall{Method: method, HasReq: true, Req: toGo(f.B, formFields), Keys: [][]string{}})
+			metas = append(metas, meta{kind: "form", vary: -1, sent: f.B, descr: method})
+		}
+	}
 	msgOf := func(s string) M { return M{"t": "objn", "m": []any{[]any{"Msg", strOf(s)}}} }
 	for _, rv := range resps {
 		var d dresp
@@ -444,11 +460,11 @@ func Prepare(r *core.Run, extra, race bool) (*Prepared, error) {
 			calls = append(calls, dcall{Method: "Vbody", HasReq: true, Req: v, Keys: [][]string{}, Resp: &dresp{"VBody", vb("ok", 5, absent)}})
 			metas = append(metas, meta{kind: "extra", vary: -1})
 		}
-		for _, data := range []string{"", "x", strings.Repeat("stream-", 3000)} {
-			calls = append(calls, dcall{Method: "Stream", HasReq: true, Req: M{"t": "objn", "m": []any{[]any{"Data", strOf(data)}}}, Keys: [][]string{},
-				Resp: &dresp{"StreamOK", M{"t": "objn", "m": []any{[]any{"Data", strOf("reply:" + data)}}}}})
-			metas = append(metas, meta{kind: "extra", vary: -1})
-		}
+	}
+	for _, data := range []string{"", "x", "\x00\xff\r\n binary \x80", strings.Repeat("stream-", 3000)} {
+		calls = append(calls, dcall{Method: "Stream", HasReq: true, Req: M{"t": "objn", "m": []any{[]any{"Data", strOf(data)}}}, Keys: [][]string{},
+			Resp: &dresp{"StreamOK", M{"t": "objn", "m": []any{[]any{"Data", strOf("reply:" + data)}}}}})
+		metas = append(metas, meta{kind: "stream", vary: -1, sent: strOf(data), resp: strOf("reply:" + data)})
 	}
 	return &Prepared{Bin: bin, Calls: calls, metas: metas, ops: ops}, nil
 }
@@ -545,6 +561,40 @@ func Check(r *core.Run) error {
 			line = M{"kind": "body", "sent": mt.sent, "outcome": res.Outcome, "got": got, "mwgot": mwgot}
 			desc = append(desc, fmt.Sprintf("body given %s -> %s status %d handler saw %s middleware saw %s %s", show(mt.sent), res.Outcome, res.Status, show(got), show(mwgot), res.Err))
 			r.Nontrivial("body|" + res.Outcome)
+		case "stream":
+			field := func(v M) M {
+				if v != nil && v["t"] == "objn" {
+					for _, m := range v["m"].([]any) {
+						if kv := m.([]any); kv[0] == "Data" {
+							return kv[1].(M)
+						}
+					}
+				}
+				return absent
+			}
+			got, rgot := absent, absent
+			if res.Handler && len(res.HArgs) == 1 {
+				got = field(res.HArgs[0])
+			}
+			if res.Outcome == "ok" {
+				rgot = field(res.RVal)
+			}
+			line = M{"kind": "stream", "sent": mt.sent, "outcome": res.Outcome, "got": got, "rsent": mt.resp, "rgot": rgot}
+			desc = append(desc, fmt.Sprintf("streamed body of %d bytes -> %s status %d, handler read %d bytes, caller read %d bytes %s", len(mt.sent["s"].([]any)), res.Outcome, res.Status, lenOf(got), lenOf(rgot), res.Err))
+			r.Nontrivial("stream|" + res.Outcome)
+		case "form":
+			got, mwgot := absent, absent
+			if res.Handler && len(res.HArgs) == 1 {
+				if got, err = fromGo(res.HArgs[0], formFields); err != nil {
+					return fmt.Errorf("%w: form: %v", tlc.ErrInfra, err)
+				}
+				if mwgot, err = fromGo(res.MwBody, formFields); err != nil {
+					return fmt.Errorf("%w: middleware form: %v", tlc.ErrInfra, err)
+				}
+			}
+			line = M{"kind": "form", "sent": mt.sent, "outcome": res.Outcome, "got": got, "mwgot": mwgot}
+			desc = append(desc, fmt.Sprintf("%s body given %s -> %s status %d handler saw %s middleware saw %s %s", mt.descr, show(mt.sent), res.Outcome, res.Status, show(got), show(mwgot), res.Err))
+			r.Nontrivial("form|" + mt.descr + "|" + res.Outcome)
 		case "resp":
 			rv := mt.resp
 			payload := M{"hdr": rv["hdr"], "msg": map[string]string{"ok200": "m200", "created201": "", "pat4XX": "m4", "default": "md"}[rv["v"].(string)]}
@@ -594,6 +644,13 @@ func Check(r *core.Run) error {
 		r.Violate(what, M{"line": line, "verdict": v.Kind})
 	}
 	return nil
+}
+
+func lenOf(v M) int {
+	if s, ok := v["s"].([]any); ok {
+		return len(s)
+	}
+	return -1
 }
 
 func toF(x any) float64 {
@@ -670,7 +727,8 @@ func glue(s *gencode.Surface) string {
 		}
 		fmt.Fprintf(&b, "func (handler) %s%s %s {\n\trecordArgs(a0, []any{%s})\n", m.Name, m.Params, m.Results, strings.Join(args, ", "))
 		if m.NRes == 2 {
-			fmt.Fprintf(&b, "\tr, _ := nextResp(a0).(%s)\n\treturn r, nil\n}\n\n", m.ResType[0])
+			// the response was built behind a pointer: the operation may want the value itself
+			fmt.Fprintf(&b, "\tv := nextResp(a0)\n\tif r, ok := v.(%[1]s); ok {\n\t\treturn r, nil\n\t}\n\tif rv := reflect.ValueOf(v); rv.IsValid() && rv.Kind() == reflect.Ptr && !rv.IsNil() {\n\t\tif r, ok := rv.Elem().Interface().(%[1]s); ok {\n\t\t\treturn r, nil\n\t\t}\n\t}\n\tvar z %[1]s\n\treturn z, nil\n}\n\n", m.ResType[0])
 		} else {
 			b.WriteString("\treturn nil\n}\n\n")
 		}
